@@ -12,7 +12,9 @@ VAL_ATOMS = [b"v", b"1", b"prod", b"a=b", b"with space", b"\xf0\x9f\x98\x80", b"
 UNICODE_ATOMS = [x.encode("utf-8") for x in ("\u0663", "\uff11", "\u0968", "\u2167", "\u00b2", "\u00c9", "\u043d", "\u043a", "\u4e3d", "\u4e3a",
                                               "\u0301", "\u203f", "\u00a0", "\u017c", "\u0123", "\u012c", "\u0140", "\u015b", "\u015d", "\u212a",
                                               # low byte = '-', '_', '.', ':', '=' in 2-, 3- and 4-byte encodings
-                                              "\u012d", "\u4e2d", "\U0001f32d", "\u015f", "\u012e", "\u013a", "\u013d", "\u012d-", "\u4e2d-x")]
+                                              "\u012d", "\u4e2d", "\U0001f32d", "\u015f", "\u012e", "\u013a", "\u013d", "\u012d-", "\u4e2d-x",
+                                              # case folding maps these onto ASCII letters (Kelvin sign, dotted capital I, long s, dotless i)
+                                              "\u212a", "\u0130", "\u017f", "\u0131")]
 # names and values that contain bytes of the sample syntax itself
 # two strings with equal 64-bit FNV-1a sums (a memo table or a set keyed by the hash alone confuses them)
 FNV64_TWINS = [b"gadlgenekeokochf", b"cmafdfhkcfbljoif"]
@@ -219,8 +221,34 @@ def any_line(rnd):
     return rs[rnd.choice(["librato", "influx", "signalfx"])] + b"|#" + render_tags(d[2], b":")
 
 
+def straddle_line(rnd):
+    """a valid line of more than 2^k bytes in which a multi-byte character lies across byte offset 2^k (k = 8..12): whatever
+    works on a prefix of the line (a buffer, a truncated copy for the log) cuts it in two"""
+    k = rnd.choice([256, 512, 1024, 1024, 2048, 4096])
+    ch = rnd.choice(["\u00e9", "\u20ac", "\U0001F600"]).encode("utf-8")
+    back = rnd.randint(1, len(ch) - 1)                      # bytes of the character before the offset
+    kind = rnd.random()
+    if kind < 0.4:
+        # long name
+        pad = k - back - 2
+        return b"n." + b"a" * pad + ch + b"tail:1|c"
+    if kind < 0.7:
+        # long tag value
+        head = b"m:1|c|#k:"
+        return head + b"v" * (k - back - len(head)) + ch + b"w,z:1"
+    # many samples, each short: the character sits in a malformed sample in the middle
+    head = b"m:"
+    body = b""
+    while len(head + body) + 8 < k - back - 4:
+        body += b"1|c:"
+    fill = k - back - len(head + body) - 0
+    return head + body + b"x" * fill + ch + b"|c:2|c:3|g"
+
+
 def hostile_line(rnd):
     r = rnd.random()
+    if r < 0.04:
+        return straddle_line(rnd)
     if r < 0.6:
         return mutate(rnd, any_line(rnd))
     if r < 0.75:
